@@ -15,6 +15,7 @@ import sys
 import time
 
 import common
+import paths
 import values
 import seqref
 import seqgen
@@ -112,15 +113,13 @@ def classify(e):
 def run_real_once(text, host_data, timeout=5):
     eng, root = engine()
     try:
-        st = _PARSED.get(text)
-        if st is None:
-            st = eng(text)
-            if len(_PARSED) < 20000:
-                _PARSED[text] = st
+        eng(text)           # parsing errors surface outside the watchdog, as before
         signal.signal(signal.SIGALRM, _alarm)
         signal.setitimer(signal.ITIMER_REAL, timeout)
         try:
-            return ('ok', st.evaluate(data=host_data, context=root.create_child_context()))
+            # one of the equivalent host paths (plain / reused statement / engine.copy / per-call options / document bound
+            # by the host), chosen by the text: see harness/paths.py
+            return ('ok', paths.evaluate(eng, root, text, host_data))
         finally:
             signal.setitimer(signal.ITIMER_REAL, 0)
     except Timeout:
@@ -588,6 +587,7 @@ def run(env, res):
         twins += out['twins']
     res.extra['functions'] = len(FUNCTIONS)
     res.extra['per_function'] = per_fn
+    res.extra['host_paths_this_process'] = dict(paths.HIST)
     res.extra['histogram'] = dict(receiver_kinds=kinds, sizes=sizes, stages=stages, real_error_classes=errs,
                                   out_of_domain=ood,
                                   element_profiles_cases_ood_errors=profiles,
